@@ -189,6 +189,15 @@ where
                 }
 
                 let mut target = target.additional();
+
+                // The OPT record of the response may carry options (e.g.
+                // padding, NSID, a cookie). Don't let it take the truncated
+                // response over the very limit being enforced: a push fails
+                // as soon as the message would no longer be shorter than the
+                // push limit, hence the + 1. If the complete OPT record does
+                // not fit, the code below falls back to one without options.
+                target.set_push_limit(max_response_size + 1);
+
                 if let Some(opt) = source.opt() {
                     if let Err(err) = target.push(opt.as_record()) {
                         warn!(
@@ -212,6 +221,8 @@ where
                         }
                     }
                 }
+
+                target.clear_push_limit();
 
                 let new_len = target.as_slice().len();
                 trace!(
